@@ -196,6 +196,15 @@ G19 == [name |-> "g19", params |-> <<"blk20">>, res |-> <<"i64">>, regty |-> <<"
 G20 == [name |-> "g20", params |-> <<"blk4">>, res |-> <<"i64">>, regty |-> <<"i", "i">>,
         insns |-> <<InsIn("mov", Reg(2), <<Mem("i32", 0, 1, 0, 1)>>), InsIn("mov", Mem("u16", 2, 1, 0, 1), <<Imm(Zero64)>>),
                     InsIn("add", Reg(2), <<Reg(2), Mem("u16", 0, 1, 0, 1)>>), [op |-> "ret", s |-> <<Reg(2)>>]>>]
+(* g21 (i64 a) -> u32 : a + 1 as an unsigned 32-bit result: the caller must see it zero-extended *)
+G21 == [name |-> "g21", params |-> <<"i64">>, res |-> <<"u32">>, regty |-> <<"i", "i">>,
+        insns |-> <<InsIn("add", Reg(2), <<Reg(1), Imm(One64)>>), [op |-> "ret", s |-> <<Reg(2)>>]>>]
+(* g22 (i64 a) -> i64 : a four-way switch on a & 3 (a jump table with absolute addresses in the generated code) *)
+G22 == [name |-> "g22", params |-> <<"i64">>, res |-> <<"i64">>, regty |-> <<"i", "i">>,
+        insns |-> <<InsIn("and", Reg(2), <<Reg(1), Imm(FromNat(3))>>),
+                    [op |-> "switch", s |-> <<Reg(2)>>, ls |-> <<3, 4, 5, 6>>],
+                    [op |-> "ret", s |-> <<Imm(FromNat(1000))>>], [op |-> "ret", s |-> <<Reg(1)>>],
+                    [op |-> "ret", s |-> <<Imm(FromNat(77))>>], [op |-> "ret", s |-> <<Reg(2)>>]>>]
 FImm(fmt, x) == [k |-> "fimm", fmt |-> fmt, x |-> x]
 FImmVals == {Fin(0, 1, 0), Fin(1, 3, -1), Fin(0, 5, -3), Fin(0, 3, 20), Fin(0, 13, -4), FZero(0), Fin(0, 3, -40), Fin(1, 7, -33)}
 
@@ -234,14 +243,14 @@ KindsInt == {"ibin", "iun", "shift", "div", "br2", "br1", "loop", "ovf", "switch
              "pld", "pst", "alloca2", "gcall", "dload", "lref1", "lref2", "addrst", "addrld", "addrcall", "bsblk", "rload", "rcall", "lref3", "ext2", "alloca3", "br1i", "divm", "pidxst", "postinc"}
 KindsFp == {"fbin", "fcmp", "fbr", "i2f", "f2i", "fmovm", "f2f", "callg3", "addrfp", "callva"}
 (* "link": the constructs MIR_link rewrites (calls to inline, allocas, jumps and branch chains, memory operands) *)
-KindsLink == {"callg1", "callg2", "callg3", "ext", "alloca", "br2", "br1", "loop", "switch", "ibin", "idx", "jmpi", "ovf", "calla",
-              "callg6", "callg7", "gcall", "rblk", "blkv", "blkv12", "blkv20", "blkv4", "alloca2", "lref1", "lref2", "addrst", "addrcall", "bsblk", "callva", "rcall", "lref3", "ext2", "alloca3", "br1i", "divm", "postinc"}
+KindsLink == {"callg1", "callg2", "callg3", "callg13", "ext", "alloca", "br2", "br1", "loop", "switch", "ibin", "idx", "jmpi", "ovf", "calla",
+              "callg6", "callg7", "gcall", "rblk", "blkv", "blkv12", "blkv20", "blkv4", "callg21", "icall21", "callg22", "alloca2", "lref1", "lref2", "addrst", "addrcall", "bsblk", "callva", "rcall", "lref3", "ext2", "alloca3", "br1i", "divm", "postinc"}
 KindsOf == IF Vocab = "int" THEN KindsInt ELSE IF Vocab = "link" THEN KindsLink
          ELSE IF Vocab = "exec" THEN {"callg1", "callg2", "callg3", "calla", "ext", "icall", "icall5", "cb", "jmpi", "switch", "br2", "loop",
-                                      "ibin", "alloca", "fbin", "idx", "callg6", "callg7", "gcall", "rblk", "blkv", "blkv12", "blkv20", "blkv4", "callg12", "callg13", "callg14", "fmovm", "lref1", "lref2", "addrcall", "addrld", "bsblk", "callva", "rload", "rcall", "lref3", "alloca3"}
-         ELSE IF Vocab = "single" THEN (KindsInt \cup KindsFp \cup {"calla", "callg6", "callg7", "rblk", "blkv", "blkv12", "blkv20", "blkv4", "callg12", "callg13",
+                                      "ibin", "alloca", "fbin", "idx", "callg6", "callg7", "gcall", "rblk", "blkv", "blkv12", "blkv20", "blkv4", "callg21", "icall21", "callg22", "callg12", "callg13", "callg14", "fmovm", "lref1", "lref2", "addrcall", "addrld", "bsblk", "callva", "rload", "rcall", "lref3", "alloca3"}
+         ELSE IF Vocab = "single" THEN (KindsInt \cup KindsFp \cup {"calla", "callg6", "callg7", "rblk", "blkv", "blkv12", "blkv20", "blkv4", "callg21", "icall21", "callg22", "callg12", "callg13",
                                                                       "callg14", "icall", "icall5"}) \ {"callg3", "lref1", "lref2", "lref3", "callva"}   \* functions with at most one result
-         ELSE KindsInt \cup KindsFp \cup {"calla", "callg6", "callg7", "rblk", "blkv", "blkv12", "blkv20", "blkv4", "callg12", "callg13", "callg14"}
+         ELSE KindsInt \cup KindsFp \cup {"calla", "callg6", "callg7", "rblk", "blkv", "blkv12", "blkv20", "blkv4", "callg21", "icall21", "callg22", "callg12", "callg13", "callg14"}
 NeedFull == {"pld", "pst", "gcall", "pidxst"}
 KindsGlob == IF ~UseG THEN {} ELSE {"gset", "gget", "gadd"} \cup (IF Glob = "calls" THEN {"gcall2"} ELSE {})
 KindsAbs == IF Abs /\ Vocab \in {"all", "link", "int"} THEN {"absld", "absst", "absd"} ELSE {}
@@ -301,6 +310,9 @@ Holes(k) ==
     [] k = "calla" -> <<"ireg", "isrc", "isrc">>
     [] k = "icall" -> <<"ireg", "isrc", "isrc">>
     [] k = "icall5" -> <<"ireg", "isrc">>
+    [] k = "callg22" -> <<"ireg", "isrc">>
+    [] k = "callg21" -> <<"ireg", "isrc">>
+    [] k = "icall21" -> <<"ireg", "isrc">>
     [] k = "cb" -> <<"ireg", "extid", "isrc">>
     [] k = "callg6" -> <<"ireg", "isrc", "isrc">>
     [] k = "callg7" -> <<"ireg", "isrc">>
@@ -506,6 +518,11 @@ Render(k, v) ==
                         [op |-> "call", callee |-> [k |-> "reg", r |-> RTMP2, f |-> 2], res |-> <<v[1]>>, args |-> <<v[2], v[3]>>]>>
     [] k = "icall5" -> <<InsIn("mov", Reg(RTMP2), <<Ref(6)>>),
                          [op |-> "call", callee |-> [k |-> "reg", r |-> RTMP2, f |-> 6], res |-> <<v[1]>>, args |-> <<v[2]>>]>>
+    \* an unsigned 32-bit result, called directly (may be inlined) and through a register (never inlined)
+    [] k = "callg22" -> <<[op |-> "call", callee |-> [k |-> "func", f |-> 23], res |-> <<v[1]>>, args |-> <<v[2]>>]>>
+    [] k = "callg21" -> <<[op |-> "call", callee |-> [k |-> "func", f |-> 22], res |-> <<v[1]>>, args |-> <<v[2]>>]>>
+    [] k = "icall21" -> <<InsIn("mov", Reg(RTMP2), <<Ref(22)>>),
+                          [op |-> "call", callee |-> [k |-> "reg", r |-> RTMP2, f |-> 22], res |-> <<v[1]>>, args |-> <<v[2]>>]>>
     \* C callback re-entering MIR: ext_cb (id, &g5, v)
     [] k = "cb" -> <<[op |-> "call", callee |-> [k |-> "cb"], res |-> <<v[1]>>, args |-> <<v[2], Ref(6), v[3]>>]>>
 
@@ -595,7 +612,7 @@ MainFunc ==
 Finalize ==
   /\ phase = "build" /\ slot = NSlots + 1 /\ cur.kind = ""
   /\ phase' = "run"
-  /\ prog' = [funcs |-> <<MainFunc, G1, G2, G3, G4, G5, G6, G7, G8, G9, G10, G11, G12, G13, G14, G15, G16, G17, G18, G19, G20>>]
+  /\ prog' = [funcs |-> <<MainFunc, G1, G2, G3, G4, G5, G6, G7, G8, G9, G10, G11, G12, G13, G14, G15, G16, G17, G18, G19, G20, G21, G22>>]
   /\ mem' = InitMem(InitBuf, LrSeq)
   /\ frames' = InitFrames
   /\ status' = "run"
